@@ -583,6 +583,9 @@ def finish (s : St) (status : String) : List String :=
   let spec := if s.cfg.smoke then
       (match s.prop with
        | "C04" => specSmoke s status
+       -- a producer that laps a handler shows at the handler as a payload that belongs to a later sequence
+       | "C05" => ((specSmoke s status).filter (fun l => (l.splitOn "payload").length > 1 || (l.splitOn "never written").length > 1)).map
+           (fun l => l.replace "C04 smoke" "C05 smoke (slot overwritten before it was consumed)")
        | "C06" => if s.cfg.multi && status != "ok" then [] else specC06 s status   -- a stranded multi-producer run may hang for real
        | _ => [])
     else match s.prop with
